@@ -450,7 +450,7 @@ def run_shape(chk):
         chk.tie_broken("lock class of results_aggregator", "module has no name SoftFileLock: the scheduler cannot see lock operations")
 
 
-def run(chk):
+def _component_run(chk):
     proofs_ok = core.standard_proof_phase(chk, "C08", gen_needed=("ResultsFilesGen",))
     core.extra_props_phase(chk, "C08_system")     # rows are moved, never dropped or duplicated, in the system model
     logging.disable(logging.CRITICAL)
@@ -497,7 +497,7 @@ def impl_only(chk):
         chk.count(("rnd", k))
 
 
-def replay(path):
+def _component_replay(path):
     obj = json.load(open(path))
     print(json.dumps({k: obj.get(k) for k in ("property", "signature", "what", "kind", "where")}, indent=1))
     if "config" not in obj:
@@ -521,3 +521,24 @@ def replay(path):
     if not problems:
         print("replay: no oracle fails on the current tree")
     return 1 if problems else 0
+
+
+# ------------------------------------------------------------------------------------------------
+# system level (added by the coordinator): the real code in the virtual cluster, impl traces accepted
+# by System.step, Coq monitors and Python oracles (harness/syscheck.py)
+def run(chk):
+    _component_run(chk)
+    from harness import syscheck
+    syscheck.system_phase(chk, "C08", {'plain': 6, 'racing_try': 2, 'hooks': 1}, n_quick=80, n_thorough=1500, also=())
+
+
+def replay(path):
+    import json as _json
+    try:
+        obj = _json.load(open(path))
+    except Exception:  # noqa
+        obj = {}
+    if isinstance(obj, dict) and "scenario" in obj and "schedule" in obj and "plan" in obj:
+        from harness import syscheck
+        return syscheck.replay_case(path)
+    return _component_replay(path)
